@@ -54,7 +54,7 @@ def parse(ctx, s, what):
 async def check_expression(ctx, case):
     """case: {"ast", "s", optional "only": [name, path], "assignments"}"""
     ast, s = case["ast"], case["s"]
-    rng = ctx.rng
+    rng = ctx.case_rng(case)
     ctx.set_case("expression", case)
     tree = parse(ctx, s, "source expression")
     if tree is None:
@@ -117,9 +117,9 @@ async def check_expression(ctx, case):
             ctx.count("async_related_pairs_under_random_completion_order")
         aout = await H.async_requirement(ts, H.world_for(tast, asg), scheduler)
         if aout[0] != "ok":
-            ctx.violation("transformation-makes-invalid" if type(aout[1]).__name__ == "InvalidExpressionError" else f"evaluation-raises-{type(aout[1]).__name__}", f"{name}: requirement_constraint_evaluation({ts!r}) under {asg} {describe(aout)[:200]}", case=dict(case, assignments=[asg], only=[name, list(path)]))
+            ctx.violation("transformation-makes-invalid" if type(aout[1]).__name__ == "InvalidExpressionError" else f"evaluation-raises-{type(aout[1]).__name__}", f"{name}: requirement_constraint_evaluation({ts!r}) under {asg} {describe(aout)[:200]}", case=case)
         elif (aout[1].requirement_constraints_fulfilled, aout[1].requirement_is_conditional) != expected:
-            ctx.violation(name, f"{name}: requirement_constraint_evaluation({ts!r}) under {asg} = {(aout[1].requirement_constraints_fulfilled, aout[1].requirement_is_conditional)}, source expression {s!r} gives {expected}", case=dict(case, assignments=[asg], only=[name, list(path)]))
+            ctx.violation(name, f"{name}: requirement_constraint_evaluation({ts!r}) under {asg} = {(aout[1].requirement_constraints_fulfilled, aout[1].requirement_is_conditional)}, source expression {s!r} gives {expected}", case=case)
 
 
 async def run(ctx):
